@@ -425,15 +425,40 @@ func (e *engine) onListChange(ev verifvfs.Event) {
 		return
 	}
 	old := e.versions[len(e.versions)-1].view
+	oldNames := e.versions[len(e.versions)-1].names
 	e.versions = append(e.versions, version{names: names, view: view, step: ev.Step, proc: p})
+	// A transaction whose records change no view (deleting a name nobody holds) commits
+	// invisibly; it is recognised by the list growing by exactly its tables.
+	invisibleCommit := func() bool {
+		op := e.cur[p]
+		if op == nil || (op.op.Kind != KAdd && op.op.Kind != KAddMulti) || op.committed || len(op.tables) == 0 {
+			return false
+		}
+		if len(names) != len(oldNames)+len(op.tables) {
+			return false
+		}
+		for i := range oldNames {
+			if names[i] != oldNames[i] {
+				return false
+			}
+		}
+		want := old.Clone()
+		for _, t := range op.tables {
+			want.Apply(t.Refs, t.Logs)
+		}
+		return storesEqual(want, old) == ""
+	}
 	if !e.mon.M4 {
 		// still track commits for the success/committed relation
-		if op := e.cur[p]; op != nil && (op.op.Kind == KAdd || op.op.Kind == KAddMulti) && !op.committed && storesEqual(view, old) != "" {
+		if op := e.cur[p]; op != nil && (op.op.Kind == KAdd || op.op.Kind == KAddMulti) && !op.committed && (storesEqual(view, old) != "" || invisibleCommit()) {
 			op.committed = true
 		}
 		return
 	}
 	if storesEqual(view, old) == "" {
+		if invisibleCommit() {
+			e.cur[p].committed = true
+		}
 		return // compaction (or anything else) that leaves the view unchanged
 	}
 	op := e.cur[p]
